@@ -54,6 +54,29 @@ def impl_case(case):
         if fail is None and (g != 'latin1' or b != [0xff, 0x01, 0x01, 0xe9]):
             fail = f'after {what} the process-wide charset is {g!r} and MetaMessage("text", text="é").bytes() = {b!r}'
     data = None
+    if fault and fault[0] in ('write', 'badcharset'):
+        # the failure comes from outside the encoding: the output file refuses the k-th byte / the charset does not exist.
+        # The rest of the process is examined INSIDE the except handler, while the exception is still alive, and afterwards.
+        class Refusing(io.BytesIO):
+            def write(self, b):
+                if self.tell() + len(b) > fault[1]:
+                    raise OSError('no space left on device')
+                return super().write(b)
+        name = charset if fault[0] == 'write' else 'utf-9'
+        for what, call in (('save', lambda: build(name, texts).save(file=Refusing() if fault[0] == 'write' else io.BytesIO())),
+                           ('load', lambda: mido.MidiFile(file=io.BytesIO(b'MThd\0\0\0\6\0\1\0\1\0\x60MTrk\0\0\0\x08\0\xff\x01\1A\0\xff\x2f\0'),
+                                                          charset=name) if fault[0] == 'badcharset' else None)):
+            kept = None
+            try:
+                call()
+                events.append('ok')
+            except Exception as e:
+                kept = e
+                events.append('err ' + exc_name(e))
+                after(f'a {what} that failed ({type(e).__name__}), inside the except handler')
+            after(f'a {what} that failed')
+            del kept
+        return ['skip'], fail
     try:
         mid = build(charset, texts, bad_time_at=fault[1] if fault and fault[0] == 'time' else None)
         buf = io.BytesIO()
@@ -166,6 +189,9 @@ def gen(ck):
                     cases.append((cs, texts, ('time', n)))
                     cases.append((cs, texts, ('databyte', n)))
                 cases.append((cs, texts, ('badtext',)))
+                for k in (0, 13, 14, 22, 30, n_guess - 10):
+                    cases.append((cs, texts, ('write', k)))
+                cases.append((cs, texts, ('badcharset', 0)))
     return cases
 
 
